@@ -108,7 +108,9 @@ def ruleListsOK (F : FileFacts) : Bool :=
      | none => false)
 
 /-- the loader as a whole, keys and rule entries: strict decoding, then every entry of every
-    rule list must have a recognised member -/
+    rule list must have a recognised member.  Not part of it (no key and no rule entry is
+    involved): the compiler-passes and veneers loaders reject a NULL DOCUMENT after decoding
+    ("empty … file"), the veneers loader requires a non-empty `package`. -/
 def loadOK (F : FileFacts) (y : Yaml) : Bool :=
   strictDecode F.lenv (.ref F.lroot) y &&
   F.ruleLists.all fun (k, u) =>
